@@ -50,3 +50,16 @@ MUTANTS["C03"] = [
     ("dft_offset_sign", "lentil/fourier.py", "np.outer(R+offsetr, U-shiftr)", "np.outer(R-offsetr, U-shiftr)"),
     ("mask_index", "lentil/plane.py", "mask = self.mask if self.mask.ndim < 3 else self.mask[n]", "mask = self.mask if self.mask.ndim < 3 else self.mask[0]"),
 ]
+MUTANTS["C04"] = [
+    ("drop_subpx", "lentil/propagate.py", "shift=prop_shift + subpx_shift,", "shift=prop_shift,"),
+    ("shift_ps_index", "lentil/field.py", "out = x/pixelscale[1] * oversample, y/pixelscale[0] * oversample", "out = x/pixelscale[0] * oversample, y/pixelscale[1] * oversample"),
+    ("shift_y_sign", "lentil/field.py", "            out = -out[1], out[0]", "            out = out[1], out[0]"),
+    ("fit_removes_piston", "lentil/plane.py", "opd_tilt = np.einsum('ij,i->j', ptt_vector[1:3], t[1:3])", "opd_tilt = np.einsum('ij,i->j', ptt_vector[0:3], t[0:3])"),
+    ("tilt_xy_not_swapped", "lentil/plane.py", "        self.x = y  # y tilt is about the x-axis.\n        self.y = x  # x tilt is about the y-axis.", "        self.x = x\n        self.y = y"),
+    ("second_fit_lost", "lentil/plane.py", "tilt=self.tilt[n::self.size])", "tilt=[self.tilt[n]] if self.tilt else [])"),
+    ("seg_fit_wrong_mask", "lentil/plane.py", "opd_no_tilt[seg] = (plane.opd - seg_tilt.reshape(plane.opd.shape)) * self.mask[seg]", "opd_no_tilt[seg] = (plane.opd - seg_tilt.reshape(plane.opd.shape)) * self.mask[0]"),
+    ("dispersive_no_incoming", "lentil/plane.py", "        x += xs\n        y += ys\n", "        y += ys\n"),
+    ("trace_first_order", "lentil/plane.py", "            x = dist/np.sqrt(1+self.trace[0]**2)", "            x = dist/np.sqrt(1+self.trace[0])"),
+    ("fix_to_round_2", "lentil/propagate.py", "        fix_shift = np.fix(shift)", "        fix_shift = np.fix(shift) + 2"),
+    ("wavefront_tilt_ignored", "lentil/wavefront.py", "            tilt = [Tilt(x=tilt[0], y=tilt[1])]", "            tilt = [Tilt(x=tilt[1], y=tilt[0])]"),
+]
